@@ -143,7 +143,14 @@ func (vc *VC) define(hint, sort, expr string) string {
 		return expr
 	}
 	n := vc.freshName(hint)
-	vc.emit(fmt.Sprintf("(define-fun %s () %s %s)", n, sort, expr))
+	// Named constants with defining equations (not define-fun macros: solvers expand macros textually, which made
+	// large functions orders of magnitude slower). Reachability predicates only need the direction R => definition:
+	// they occur positively in every query, and branch conditions are mutually exclusive.
+	if sort == "Bool" && (hint == "R" || strings.HasPrefix(hint, "R.")) {
+		vc.emit(fmt.Sprintf("(declare-const %s Bool)\n(assert (=> %s %s))", n, n, expr))
+		return n
+	}
+	vc.emit(fmt.Sprintf("(declare-const %s %s)\n(assert (= %s %s))", n, sort, n, expr))
 	return n
 }
 
@@ -486,7 +493,7 @@ func (vc *VC) lookup(st *hstate, name, sort string) string {
 				e = ite(st.joins[i].cond, ts[i], e)
 			}
 			t = fmt.Sprintf("%s@%d", name, st.id)
-			vc.emit(fmt.Sprintf("(define-fun %s () %s %s)", t, sort, e))
+			vc.emit(fmt.Sprintf("(declare-const %s %s)\n(assert (= %s %s))", t, sort, t, e))
 		}
 	}
 	st.cache[name] = t
